@@ -88,20 +88,41 @@ def sweep(chk):
     fn_fail = rnd.choice([1, 2, 3]) if (api == 'piter' and rnd.random() < 0.35 and not will_fail and stop_after is None) else 0
     if fn_fail and n_inputs > 1 and rnd.random() < 0.6:
       lens = [UNBOUNDED for _ in lens]
-    res = _run_api(api, par, lens, buf, stop_after, fail_at, seed, fn_fail=fn_fail)
+    # every fourth run lets the helper threads go as far as they can before a call returns to the caller
+    res = _run_api(api, par, lens, buf, stop_after, fail_at, seed, fn_fail=fn_fail, main_last=(i % 4 == 3))
     chk.replayed()
     if res:
       bad += 1
       chk.violation(res[0], res[1], dict(kind='piter-sweep', api=api, parallelism=par, lens=lens, buffer=buf,
-                                         stop_after=stop_after, fail_at=fail_at, fn_fail=fn_fail, run_seed=seed))
-  chk.coverage['sweep_runs'] = n_runs
+                                         stop_after=stop_after, fail_at=fail_at, fn_fail=fn_fail, main_last=(i % 4 == 3), run_seed=seed))
+  # a mapped function failing on its very first element, the helper threads running ahead of the caller
+  for k in range(6):
+    res = _run_api('piter', 2, [UNBOUNDED, UNBOUNDED], 1 + k % 2, None, None, chk.seed * 31 + k, fn_fail=1, main_last=True)
+    chk.replayed()
+    if res:
+      chk.violation(res[0] + ':first-element', res[1], dict(kind='piter-sweep', api='piter', parallelism=2, lens=[UNBOUNDED, UNBOUNDED], buffer=1 + k % 2,
+                                                           stop_after=None, fail_at=None, fn_fail=1, main_last=True, run_seed=chk.seed * 31 + k))
+  chk.coverage['sweep_runs'] = n_runs + 6
 
 
-def _run_api(api, par, lens, buf, stop_after, fail_at, seed, fn_fail=0):
+class _MainLast:
+  """Schedules the calling thread only when nobody else can run: whatever the helper threads can do before a call
+  returns to its caller, they do."""
+
+  def __init__(self, rnd):
+    self.rnd = rnd
+
+  def choose(self, enabled, sch):
+    others = [t for t in enabled if getattr(t, 'name', t) != 'main']
+    return self.rnd.choice(others or enabled)
+
+
+def _run_api(api, par, lens, buf, stop_after, fail_at, seed, fn_fail=0, main_last=False):
   import collections
   from harness import qreplay, sched
   with qreplay.installed() as iter_utils:
-    sch = sched.Scheduler(sched.Random(random.Random(seed), stickiness=0.3), max_steps=20000)
+    policy = _MainLast(random.Random(seed)) if main_last else sched.Random(random.Random(seed), stickiness=0.3)
+    sch = sched.Scheduler(policy, max_steps=20000)
     sched.set_active(sch)
     out = dict(values=[], end=None, alive=None)
     try:
@@ -116,6 +137,14 @@ def _run_api(api, par, lens, buf, stop_after, fail_at, seed, fn_fail=0):
         pool = iter_utils.futures.ThreadPoolExecutor(max_workers=max(par, len(inputs)) + 1, thread_name_prefix='w#')
         if api == 'pmux':
           pool = iter_utils.futures.ThreadPoolExecutor(max_workers=par, thread_name_prefix='w#')
+        # a submitted task may run (and fail) before submit() returns to the caller
+        real_submit = pool.submit
+
+        def submit(*a, **k):
+          f = real_submit(*a, **k)
+          sched.yield_point('after-submit')
+          return f
+        pool.submit = submit
         try:
           if api == 'pmux':
             it = iter(iter_utils.piter_multiplex([map(fn, x) for x in inputs], pool, buffer_size=buf))
